@@ -282,7 +282,18 @@ func HookShouldFail() bool {
 	if op == nil {
 		return false
 	}
+	// A goroutine the library started counts on the op of the caller that started
+	// it, and once an op has started a goroutine none of its later hook calls is
+	// failed: which call is "the n-th" would then depend on how the goroutines are
+	// scheduled, and the fault would be the harness's own nondeterminism.
+	if op.hookParent != nil {
+		op.hookParent.HookCalls++
+		return false
+	}
 	op.HookCalls++
+	if op.noHookFail {
+		return false
+	}
 	if op.HookFailAt > 0 && op.HookCalls == op.HookFailAt {
 		op.HookFired = true
 		return true
